@@ -7,7 +7,7 @@ from typing import Dict, List, Set
 from ..cfg import CFG
 from ..core import Ctx
 from ..model import AnalysisError, FuncInfo, Ty, dotted, norm, walk_no_nested
-from .common import assigned_value, enclosing, ext_calls, prog, stores_to, top_level_index
+from .common import assigned_value, check_sampler_init, enclosing, ext_calls, prog, stores_to, top_level_index
 
 POOL_FUNCS = ["Continuum.compute_gamma", "GammaResults.gamma_cat", "GammaResults.gamma_k"]
 RNG_MODULES = {"pygamma_agreement.sampler", "pygamma_agreement.cst"}     # who may draw from numpy's global RNG
@@ -41,13 +41,15 @@ def run(ctx: Ctx):
         "R-C06-4 worker-reachable code has no global write and no write/mutator call rooted at an argument of the job",
         "R-C06-5 numpy RNG draws only in sampler.py / cst.py, np.random.seed only in the CLI, nothing reachable from a dissimilarity constructor draws from numpy's RNG",
         "R-C06-6 no loop or comprehension reachable from compute_gamma / gamma_cat / gamma_k iterates a builtin set (hash order) unless it only feeds an error message",
-        "R-C06-7 every write of compute_gamma to an object that outlives the call happens before the pool is started",
+        "R-C06-7 every write of compute_gamma to an object that outlives the call happens before the pool is started; the samplers hold the continuum itself, "
+        "not a snapshot taken before that write (a repetition must see the state this call recorded)",
         "R-C06-8 the machine's core count (os.cpu_count and friends) only sizes the worker pool: nothing derived from it reaches the computation",
     ]
     ctx.not_decided += ["determinism of the numba kernels and of the MIP solvers as functions of their inputs (trusted)"]
     ctx.assumptions += ["Python evaluates call arguments in the calling thread before the call",
                         "ThreadPoolExecutor/Future semantics", "CBC/GLPK and numba kernels are deterministic"]
 
+    check_sampler_init(ctx, "R-C06-7")
     sites = submit_sites(ctx)
     for qn in POOL_FUNCS:
         f = ctx.fn(qn, "R-C06-1")
